@@ -26,6 +26,8 @@ type env struct {
 	fns    starlark.StringDict // compiled matrix helper functions
 	fileV  map[*fileSchema]starlark.Value
 	opts   *syntax.FileOptions
+
+	matrixSamples int
 }
 
 func (e *env) other(fs *fileSchema) *fileSchema {
@@ -149,7 +151,9 @@ func sortedKeys(mp protoreflect.Map) []protoreflect.MapKey {
 		ks = append(ks, k)
 		return true
 	})
-	sort.Slice(ks, func(i, j int) bool { return fmt.Sprintf("%T%v", ks[i].Interface(), ks[i].Interface()) < fmt.Sprintf("%T%v", ks[j].Interface(), ks[j].Interface()) })
+	sort.Slice(ks, func(i, j int) bool {
+		return fmt.Sprintf("%T%v", ks[i].Interface(), ks[i].Interface()) < fmt.Sprintf("%T%v", ks[j].Interface(), ks[j].Interface())
+	})
 	return ks
 }
 
@@ -162,7 +166,9 @@ type walkStats struct {
 
 func checkSingular(fd protoreflect.FieldDescriptor, v protoreflect.Value, checkEnums bool, st *walkStats) string {
 	st.values++
-	bad := func() string { return fmt.Sprintf("%s (%s) holds Go value of type %T", fd.FullName(), fd.Kind(), v.Interface()) }
+	bad := func() string {
+		return fmt.Sprintf("%s (%s) holds Go value of type %T", fd.FullName(), fd.Kind(), v.Interface())
+	}
 	switch fd.Kind() {
 	case protoreflect.BoolKind:
 		if _, ok := v.Interface().(bool); !ok {
@@ -320,3 +326,14 @@ func showSnap(s string) string {
 }
 
 func fbits(f float64) uint64 { return math.Float64bits(f) }
+
+// stackTrunc keeps the part of a recovered panic's stack that starts at the panic.
+func stackTrunc(s string) string {
+	if i := strings.Index(s, "\npanic("); i >= 0 {
+		s = s[i+1:]
+	}
+	if len(s) > 3500 {
+		s = s[:3500] + "…"
+	}
+	return s
+}
